@@ -191,11 +191,17 @@ func (it *changeIterator[Obj]) Next(txn ReadTxn) (seq iter.Seq2[Change[Obj], Rev
 		case <-it.watch:
 			// Watch channel closed, so new changes await
 		default:
-			// Watch channel for the query not closed yet, so return it to allow
-			// caller to wait for the new changes.
-			watch = it.watch
-			seq = func(yield func(Change[Obj], Revision) bool) {}
-			return
+			// The watch channel is closed only after the new root has been stored,
+			// so an open channel does not mean that the snapshot of [txn] has nothing
+			// new. Only when [txn] still has the revision index that was queried last
+			// are there no changes to return for this snapshot.
+			tableEntry := txn.committedRoot()[it.table.tablePos()]
+			if tableEntry.indexes[RevisionIndexPos].rootWatch() == it.watch {
+				// Return the watch channel to allow caller to wait for the new changes.
+				watch = it.watch
+				seq = func(yield func(Change[Obj], Revision) bool) {}
+				return
+			}
 		}
 	}
 
